@@ -56,6 +56,13 @@ Example C10_example_asymmetry :
   would_conflict [nonpeek] false peek = false /\ would_conflict [peek] false nonpeek = true /\
   fp_clash (fp false peek) (fp false nonpeek) = true.
 Proof. exact conflict_asymmetry. Qed.
+Example C10_example_expunge_waits_for_store :
+  let store := {| c_kind := KStore; c_set := [2] |} in
+  let fetch := {| c_kind := KFetch true; c_set := [2] |} in
+  let exp := {| c_kind := KExpunge; c_set := [] |} in
+  fp_clash (fp false exp) (fp false store) = true /\ would_conflict [store] false exp = true /\
+  would_conflict [fetch] false exp = false.
+Proof. exact expunge_waits_for_store. Qed.
 Example C10_example_deadlock_without_discipline :
   let ts := [ {| t_script := [Acq 2; Work; Rel; Rel]; t_holds := [1] |};
               {| t_script := [Acq 1; Work; Rel; Rel]; t_holds := [2] |} ] in
